@@ -54,6 +54,7 @@ type Session struct {
 	curLeft   int // unread bytes of it
 	writerErr bool
 	ioFault   bool // an injected I/O fault hit during the current call
+	OnEmit    func(line string) // receives every trace line (concurrent runs: merged into the scheduler's trace)
 
 	Reach     map[uint64]string // committed txid -> reach set
 	Reach0    string
@@ -199,6 +200,9 @@ func (s *Session) emit(format string, a ...interface{}) {
 	s.Step++
 	fmt.Fprintf(&s.Trace, format, a...)
 	s.Trace.WriteByte('\n')
+	if s.OnEmit != nil {
+		s.OnEmit(fmt.Sprintf(format, a...))
+	}
 }
 
 func (s *Session) mark(m string) { s.mu.Lock(); s.Markers[m]++; s.mu.Unlock() }
